@@ -4,7 +4,7 @@ CONSTANTS
   NDocs = 1
   NNames = 1
   NStrs = 1
-  MaxData = 1
+  MaxData = 2
   MaxOps = 1
   MaxKids = 4
   NIt = 0
